@@ -553,9 +553,9 @@ def main(argv):
     for tk, n in sorted(freq.items()):
         if n >= 3 or tk[0] == "S":
             if tk[0] == "N":
-                defs.append("Definition n%s : value := Eval vm_compute in VNum (nb 0x%s)." % (tk[1:], tk[1:]))
+                defs.append("Definition n%s : value := VNum (nb 0x%s)." % (tk[1:], tk[1:]))
             else:
-                defs.append('Definition s%s_ : value := Eval vm_compute in VStr (hx "%s").' % (tk[1:-1], tk[1:-1]))
+                defs.append('Definition s%s_ : value := VStr (hx "%s").' % (tk[1:-1], tk[1:-1]))
 
     def tok(kind, hx_):
         if kind == "N":
@@ -573,7 +573,9 @@ def main(argv):
     spec_ok = [None] * len(spec_idx)
     model_text = {}
     try:
-        mouts = c.coq_eval_batch(REQ, "\n".join(defs), exprs + sexprs, "c11", shard=40)
+        # one coqc process per core: the definitions (pool, powf table, named leaves) are read once each
+        per = max(10, -(-(len(exprs) + len(sexprs)) // c.NCPU))
+        mouts = c.coq_eval_batch(REQ, "\n".join(defs), exprs + sexprs, "c11", shard=per)
         for i, f in zip(all_idx, flags(mouts[:len(exprs)], g1)):
             model_ok[i] = f
         spec_ok = flags(mouts[len(exprs):], g2)
